@@ -87,6 +87,14 @@ CHECKS["C13"] = dict(
     note=NOTE_COMMON + "Bit-or of symbolic ints only after the solver proves disjoint bit fields on the path. Outside: Color(c.hex)==c and hex strings (C-level %02x), "
          "hue getter and h/s/l setter round trips, angle units inside hsl().")
 
+CHECKS["C03"] = dict(
+    text="The real SVG.parse (expat, value inheritance, transform-string concatenation, use expansion, viewport transforms, render, reify) runs on generated documents whose "
+         "every number is symbolic (tag numerals); for ~60 skeletons x reify in {True, False} (nesting <= 3: svg/g/defs/use/nested svg, transform lists on any element, "
+         "units and percentages, display:none, dangling/nested use, caller size and transform) the count, order and kinds of rendered shapes and every absolute "
+         "defining point of abs(Path(shape)) are proved equal to a fold of reference matrices over the ancestor chain applied to the SVG 2 decomposition.",
+    ref="DESIGN.md 4/C03",
+    note=NOTE_COMMON + "Outside: deeper nesting, round shapes under non-similarity transforms (C02/C06), text/images, stylesheet effects (C14).")
+
 NOT_APPLICABLE = {
 }
 
